@@ -47,6 +47,12 @@ def tasks(tier):
             out.append({"family": "protocol-awaitable",
                         "cfg": dict(base, bs_async=True, sleeper_async=True, suspend=True),
                         "entry": e, "bound": 0})
+    for hd, bs, sl in itertools.product([None, "policy"], [None, "policy"], [None, "policy"]):
+        base = dict(M=3, alphabet=["x:T", "ok", "r:T"], handler=hd, before_sleep=bs, sleeper=sl,
+                    handler_free=True, max_unknown=None, strat_menu=[1, 0], strat_free=True)
+        for e in ["RetryPolicySet.call", "RetryPolicySet.execute", "AsyncRetryPolicySet.call",
+                  "RetrySet.execute", "AsyncRetrySet.call"]:
+            out.append({"family": "protocol-assigned", "cfg": base, "entry": e, "bound": 0})
     # awaitables that are not coroutines (objects with __await__)
     for hd, e in itertools.product([None, "call", "policy"], ASYNC):
         cfg = dict(M=3, alphabet=["x:T", "ok", "r:T"], handler=hd, before_sleep="call",
@@ -58,7 +64,7 @@ def tasks(tier):
     for e in SYNC[:2] + ASYNC[:2]:
         cfg = dict(M=3, alphabet=["x:T", "ok", "r:T"], handler="call", handler_free=True,
                    handler_durs=[0, 2, 5], deadline=4, durs=[0, 1], max_unknown=None,
-                   strat_menu=[1, 0], before_sleep="call")
+                   strat_menu=[1, 0, 9], before_sleep="call")
         out.append({"family": "protocol-slow-handler", "cfg": cfg, "entry": e, "bound": 2})
     # before_sleep raising (at one invocation or always) must not change the protocol
     for hd, e, idx, bs_async in itertools.product([None, "call"], SYNC[:2] + ASYNC[:2],
